@@ -220,7 +220,8 @@ func Generate(prop, tier string, seed uint64) *Plan {
 	}
 	switch {
 	case cfg.Mode == "ticker" && rc.Chance(kfP):
-		cfg.KF = kfRemovedEarly
+		// (formerly the share of runs dedicated to group-removed-before-first-eval, repaired in /repo; the draw is
+		// kept so that the other choices of a seed do not move)
 	case prop == "C44" && rc.Chance(kfP):
 		cfg.KF = kfEmptyLabel
 	}
